@@ -306,8 +306,8 @@ def from_tk(tk_circuit):
             elif source > target:
                 left, right = swaps.cod[:target], swaps.cod[source + 1:]
                 swap = Id.swap(
-                    swaps.cod[target: target + 1],
-                    swaps.cod[target + 1: source + 1])
+                    swaps.cod[target: source],
+                    swaps.cod[source: source + 1])
             else:  # pragma: no cover
                 continue  # units are adjacent already
             swaps = swaps >> Id(left) @ swap @ Id(right)
